@@ -514,6 +514,85 @@ func propC15(c *Ctx) {
 		}
 	})
 
+	// the decoded votes keep the identity the signature check used: vote i of the decoder's
+	// result carries commit.Votes[i].Validator.Address VERBATIM (no copy into a fixed-size
+	// buffer, no trimming or re-encoding) and the extension decoded from commit.Votes[i] -
+	// otherwise an entry the validation skipped as "unknown validator" is weighed as a known one
+	c.Rule("C15.R8", func() {
+		o := c.Ob("C15.R8", "GetOracleVotes: vote i is {ConsAddress: commit.Votes[i].Validator.Address verbatim, extension decoded from commit.Votes[i].VoteExtension}, one per commit entry")
+		fn := voteDecoderOf(c)
+		if fn == nil {
+			o.Fail("-", "the vote decoder (the l2connect call whose result is aggregated) was not found", nil)
+			return
+		}
+		// parameters by type, wherever they stand
+		var names []string
+		for _, prm := range fn.Params {
+			switch tn := prm.Type().String(); {
+			case strings.Contains(tn, "ExtendedCommitInfo"):
+				names = append(names, "commit")
+			case strings.Contains(tn, "VoteExtensionCodec"):
+				names = append(names, "veCodec")
+			default:
+				names = append(names, prm.Name())
+			}
+		}
+		for _, p := range c.Paths(fn, PO{Params: names, Visits: 3}) {
+			o.Paths++
+			if !p.OK() || p.Panic || len(p.Ret) == 0 {
+				continue
+			}
+			o.Sites++
+			n := 0
+			for p.HasFact(len(p.Events), func(a *Term, pol bool) bool {
+				return pol && a.Op == "bin" && a.Name == "<" && a.Args[0].Key() == fmt.Sprint(n) && strip(a.Args[1]).Key() == "builtin.len(commit.Votes)"
+			}) {
+				n++
+			}
+			ret := p.Ret[0]
+			if len(p.RetVal) > 0 && p.RetVal[0] != nil {
+				ret = p.RetVal[0]
+			}
+			for ret.Op == "filled" && len(ret.Args) == 2 {
+				ret = ret.Args[1] // the content stored into the made slice
+			}
+			elems, ok := listOf(ret)
+			if !ok || len(elems) != n {
+				elems = nil
+				for i := 0; i < n; i++ {
+					elems = append(elems, projectIdx(ret, intTerm(int64(i)), nil))
+				}
+			}
+			if len(elems) != n {
+				o.Fail(c.W.Pos(fn.Pos()), fmt.Sprintf("%d commit entries visited but %d votes returned", n, len(elems)), c.Dump(p, -1))
+				continue
+			}
+			for i, e := range elems {
+				fs := fieldsSet(e)
+				addr, ext := fs["ConsAddress"], fs["OracleVoteExtension"]
+				wantA := fmt.Sprintf("commit.Votes[%d].Validator.Address", i)
+				if addr == nil || strip(addr).Key() != wantA {
+					got := "unset"
+					if addr != nil {
+						got = trunc(strip(addr).Key(), 120)
+					}
+					o.Fail(c.W.Pos(fn.Pos()), fmt.Sprintf("vote %d is attributed to %s, want %s verbatim", i, got, wantA), c.Dump(p, -1))
+				}
+				wantE := fmt.Sprintf("commit.Votes[%d].VoteExtension", i)
+				if ext == nil || !strings.Contains(ext.Key(), wantE) || !strings.Contains(ext.Key(), "Decode(") {
+					got := "unset"
+					if ext != nil {
+						got = trunc(ext.Key(), 120)
+					}
+					o.Fail(c.W.Pos(fn.Pos()), fmt.Sprintf("vote %d carries extension %s, want the decoding of %s", i, got, wantE), c.Dump(p, -1))
+				}
+			}
+		}
+		if o.Sites == 0 {
+			o.Fail(c.W.Pos(fn.Pos()), "no returning path", nil)
+		}
+	})
+
 	c.Rule("C15.R6", func() {
 		errorDiscipline(c, "C15.R6", "Keeper.UpdateHostValidatorSet", c.Method(childKeeper, "Keeper", "UpdateHostValidatorSet"), PO{Params: []string{"k", "ctx", "clientID", "height", "vs"}, Visits: 3})
 		errorDiscipline(c, "C15.R6", "L2OracleHandler.UpdateOracle", c.Method(childKeeper, "L2OracleHandler", "UpdateOracle"), PO{Params: []string{"k", "ctx", "height", "bz"}, Visits: 2, NoInline: []string{encoderNameOf(c)}, Pure: []string{encoderNameOf(c)}})
@@ -657,4 +736,30 @@ func retKey(p *Path) string {
 		ks = append(ks, r.Key())
 	}
 	return "(" + strings.Join(ks, ", ") + ")"
+}
+
+// voteDecoderOf: the l2connect function whose first result L2OracleHandler.UpdateOracle hands to
+// the vote aggregator (found by role, whatever it is called).
+func voteDecoderOf(c *Ctx) *ssa.Function {
+	fn := c.Method(childKeeper, "L2OracleHandler", "UpdateOracle")
+	po := PO{Params: []string{"k", "ctx", "height", "bz"}, NoInline: []string{"opchild/l2connect.", "GetLastHeight"}}
+	for _, p := range c.Paths(fn, po) {
+		agg := p.Find(func(ev *Event) bool {
+			return ev.Kind == EvCall && strings.HasSuffix(ev.Call.Name, "VoteAggregator).AggregateOracleVotes")
+		})
+		if len(agg) != 1 || len(p.Events[agg[0]].Call.Args) < 3 {
+			continue
+		}
+		for i := range p.Events {
+			e2 := &p.Events[i]
+			if e2.Kind == EvCall && strings.HasPrefix(e2.Call.Name, "opchild/l2connect.") && e2.Call.String()+".0" == p.Events[agg[0]].Call.Args[2].String() {
+				if ci, ok := e2.Instr.(ssa.CallInstruction); ok {
+					if callee := ci.Common().StaticCallee(); callee != nil && callee.Blocks != nil {
+						return callee
+					}
+				}
+			}
+		}
+	}
+	return nil
 }
